@@ -51,7 +51,7 @@ Flag(ok, prop, pred, site, r, tags) ==
 
 SpecStep(r) ==
   LET e == EvOf(r) IN
-  CASE r.act = "rep.put"   -> RepPut(e.S, e.e, e.a, e.v)
+  CASE r.act = "rep.put"   -> RepPut(e.S, e.e, e.a, e.v, e.x)
     [] r.act = "aud.put"   -> AudPut(e.S, e.e, e.a, e.b, e.v)
     [] r.act = "est.put"   -> EstPut(e.S, e.e, e.a, e.b, e.x)
     [] r.act = "est.tick"  -> EstTick(e.S, e.e)
